@@ -154,6 +154,21 @@ pub fn minimise(prop: &Prop, scen: &Scenario, viol: &Violation, digest0: u64) ->
     let mut cur_d = digest0;
     let mut attempts = 0;
     let started = Instant::now();
+    // a sweep that failed on one trial: first restrict the scenario to that trial
+    if let Some(only) = &viol.narrow {
+        let mut cand = cur.clone();
+        if !cand.extra.is_object() {
+            cand.extra = json!({});
+        }
+        cand.extra["only"] = only.clone();
+        if let Exec::Violation(v, r) = run_exec(prop, &cand) {
+            if v.oracle == viol.oracle {
+                cur = cand;
+                cur_v = v;
+                cur_d = r.digest;
+            }
+        }
+    }
     'outer: loop {
         let cands = (prop.shrink)(&cur);
         for cand in cands {
